@@ -78,7 +78,8 @@ CallEff(lvl, now) == /\ cnt' = CallRes(lvl, now).cnt /\ winEnd' = CallRes(lvl, n
 
 \* Logger.should: level tests first; a filtered event never reaches the sampler
 PassesGate(lvl) == lvl >= conf.ll /\ lvl >= conf.gl
-Consults(lvl) == PassesGate(lvl) /\ conf.root # 0 /\ ~sampOff
+\* an event of level Disabled (WithLevel(Disabled)) is no event: never written, and the sampler never hears of it
+Consults(lvl) == PassesGate(lvl) /\ lvl # Disabled /\ conf.root # 0 /\ ~sampOff
 LogExpected(lvl, now) == /\ PassesGate(lvl) /\ lvl # Disabled
                          /\ (Consults(lvl) => CallRes(lvl, now).adm)
 LogEff(lvl, now) == IF Consults(lvl) THEN CallEff(lvl, now) ELSE UNCHANGED <<conf, cnt, winEnd, sampOff>>
